@@ -251,6 +251,9 @@ func (c *checker) convertTo(e Expr, t *Type) Expr {
 	if b.T == t {
 		return e
 	}
+	if h, ok := c.rules.(convertRules); ok {
+		return h.convertNode(c, e, t)
+	}
 	if !c.rules.implicitConv(b.T, t) {
 		return nil
 	}
@@ -298,6 +301,9 @@ func (c *checker) expr(e Expr) Expr {
 	case *Assign:
 		return c.assign(x)
 	case *Cond:
+		if h, ok := c.rules.(condExprRules); ok {
+			return h.condExpr(c, x)
+		}
 		x.C = c.value(x.C)
 		if x.C.base().T != tBool {
 			c.invalid(x.C.base().Pos, "type", "condition of ?: must be a scalar bool, got %s", x.C.base().T)
@@ -344,6 +350,8 @@ func (c *checker) expr(e Expr) Expr {
 		c.unsupported(x.Pos, "brace initializer list")
 	case *Convert:
 		return x
+	case customExpr:
+		return x.checkCustom(c)
 	}
 	panic(fmt.Sprintf("ctext: unknown expression node %T", e))
 }
@@ -536,7 +544,7 @@ func (c *checker) index(x *Index) Expr {
 			// GLSL 4.60 §5.7 / §4.1.9: indexing with a constant expression
 			// that is negative or not less than the declared size is a
 			// compile-time error.
-			if n < 0 || (size > 0 && n >= int64(size)) {
+			if (n < 0 || (size > 0 && n >= int64(size))) && c.d != MSL { // C++ (MSL) has no such rule: the access is undefined at run time
 				c.invalid(x.I.base().Pos, "index", "constant index %d out of range for %s", n, xt)
 			}
 		}
@@ -617,6 +625,11 @@ func (c *checker) call(x *Call) Expr {
 				c.fn.callees[fn] = true
 			}
 			return x
+		}
+	}
+	if h, ok := c.rules.(callRules); ok {
+		if r := h.resolveCall(c, x); r != nil {
+			return r
 		}
 	}
 	sigs, known, unmodelled, needs := c.rules.builtinFuncs(x.Name)
@@ -731,6 +744,11 @@ func (c *checker) bindArgs(x *Call, params []*Type, dirs []string) {
 			if x.Args[i] == nil {
 				c.invalid(a.base().Pos, "type", "argument %d of %s: cannot convert %s to %s", i+1, x.Name, a.base().T, params[i])
 			}
+		case "cref", "ptr":
+			// C++ reference to const / pointer parameter (MSL): the argument
+			// designates an object of exactly the parameter's type (argMatch);
+			// no write access is required (the node that takes an address
+			// checks its own operand).
 		default:
 			c.requireWritable(a, fmt.Sprintf("argument %d of %s (%s parameter)", i+1, x.Name, dirs[i]))
 		}
@@ -894,6 +912,9 @@ func (c *checker) resolveBuiltin(x *Call, sigs []*builtinSig) *builtinSig {
 // ---------------------------------------------------------------------------
 
 func (c *checker) condition(e Expr, what string) Expr {
+	if h, ok := c.rules.(conditionRules); ok {
+		return h.condition(c, e, what)
+	}
 	e = c.value(e)
 	if e.base().T != tBool {
 		c.invalid(e.base().Pos, "type", "%s condition must be a scalar bool, got %s", what, e.base().T)
@@ -1066,11 +1087,17 @@ func (c *checker) switchStmt(x *SwitchStmt) {
 		// between a label and the end of the switch statement."
 		c.invalid(x.Body[lastLabel].stmtPos(), "syntax", "no statement between the last label and the end of the switch")
 	}
+	if h, ok := c.rules.(switchRules); ok {
+		h.checkSwitch(c, x)
+	}
 	c.swits--
 	c.pop()
 }
 
 func (c *checker) localVar(v *VarDecl) {
+	if h, ok := c.rules.(localVarRules); ok && h.localVar(c, v) {
+		return
+	}
 	q := v.Quals
 	if q.In || q.Out || q.Inout || q.Uniform || q.Buffer || q.Shared || q.HasLayout {
 		c.invalid(v.Pos, "syntax", "local variable %q cannot have storage or layout qualifiers other than const", v.Name)
@@ -1154,7 +1181,7 @@ func (c *checker) function(fn *Function) {
 			c.invalid(p.Pos, "type", "opaque parameter cannot be out/inout")
 		}
 	}
-	if fn.Name == "main" {
+	if fn.Name == "main" && c.d == GLSL {
 		if fn.Ret.Kind != KVoid || len(fn.Params) != 0 {
 			c.invalid(fn.Pos, "type", "main must be declared as void main()")
 		}
@@ -1222,6 +1249,11 @@ func (c *checker) function(fn *Function) {
 	for _, p := range fn.Params {
 		s := &Symbol{Kind: SymParam, Name: p.Name, T: p.T, Pos: p.Pos, Slot: c.frame, ReadOnly: p.Quals.Const}
 		c.frame += p.T.nsc
+		if p.Dir == "ref" || p.Dir == "cref" || p.Dir == "ptr" {
+			s.IsRef = true
+			s.RefSlot = fn.RefCount
+			fn.RefCount++
+		}
 		p.Sym = s
 		if p.Name != "" {
 			c.declare(s, "param")
@@ -1284,4 +1316,11 @@ func (c *checker) checkRecursion() {
 			visit(f)
 		}
 	}
+}
+
+// localVarRules: optional dialect hook tried first by localVar; it returns
+// true when it has declared the variable itself (MSL `threadgroup T x;`
+// inside a kernel: per-workgroup storage, not a frame slot).
+type localVarRules interface {
+	localVar(c *checker, v *VarDecl) bool
 }
